@@ -8,6 +8,10 @@ TB = ("Trusted base: Coq 8.16.1 kernel (vm_compute for reflection; no native_com
       "'Closed under the global context'); extraction with ExtrOcamlBasic only + ocaml/driver.ml; the Rust harness and rustc. ")
 
 CLAIMS = {
+ "C17": dict(
+   text="Theorems over a hand model of BodyStructParser (BodyStruct.v), for all trees of any width and depth: the map built by the walker holds exactly (IMAP part specifier -> part) (soundness, completeness, no key inserted twice); every candidate search() may return leads to a part satisfying the predicate, and there is a candidate iff some part satisfies it; every index lies between 1 and the widest multipart (u32 counter cannot overflow below 2^32 children). Tied to the code by running the real BodyStructParser on ~35 000 generated (tree, predicate) cases and requiring its answer to be one of the model's candidates; an implementation-only oracle (the property's own definition of part specifiers) judges violations.",
+   note=TB + "Modelled, not verified: HashMap (insert keeps last value per key; iteration order arbitrary). message/rfc822 parts are leaves for the walker, as in the code.",
+   technique="Coq proof by induction over trees + extraction-based differential vs BodyStructParser", ref="3 C17"),
  "C11": dict(
    text="Theorems over a hand model of IdGenerator (Tags.v): every tag is a valid 5-byte IMAP tag; any two of 10 000 consecutive counter values give different tags for every start (arithmetic proof, not enumeration); k<=10000 calls from any non-overflowing state yield NoDup tags. The model is tied to the code by running 30 000 commands through the real client over a mock transport and comparing the tags on the wire with the extracted model.",
    note=TB + "Modelled, not verified: format!(\"A{:04}\") (pad4), u64 increment without overflow inside the window. The exact-match half (completion only by the byte-identical tag) is pinned with the client machine (C05) when that is built.",
